@@ -241,25 +241,27 @@ type Reload struct {
 }
 
 type Input struct {
-	Fam      string           `json:"fam"`
-	Rel      string           `json:"rel"`
-	Mode     string           `json:"mode"` // preload | joins | assoc
-	Nested   string           `json:"nested,omitempty"`
-	Nested2  string           `json:"nested2,omitempty"`      // third segment of the path Rel.Nested.Nested2
-	Both     bool             `json:"both,omitempty"`         // Preload(Rel, Cond) AND Preload(clause.Associations, CondAll) in one query
-	CondAll  Cond             `json:"cond_all"`               // conditions / scope given with clause.Associations (Both)
-	AllUnsc  bool             `json:"all_unscoped,omitempty"` // the all-associations scope also calls Unscoped()
-	AllFirst bool             `json:"all_first,omitempty"`    // order of the two Preload calls
-	Reload   *Reload          `json:"reload,omitempty"`
-	AllAssoc bool             `json:"all_assoc,omitempty"`
-	Cond     Cond             `json:"cond"`
-	Cond2    Cond             `json:"cond2"`
-	Unscoped bool             `json:"unscoped,omitempty"`
-	Shape    string           `json:"shape"` // struct | slice | ptrs
-	Dup      bool             `json:"dup,omitempty"`
-	Inner    bool             `json:"inner,omitempty"`  // joins mode: InnerJoins instead of Joins
-	Subset   []int64          `json:"subset,omitempty"` // parent uids selected (nil = all)
-	Tables   map[string][]Row `json:"tables"`           // P O M T G N J
+	Fam        string           `json:"fam"`
+	Rel        string           `json:"rel"`
+	Mode       string           `json:"mode"` // preload | joins | assoc
+	Nested     string           `json:"nested,omitempty"`
+	Nested2    string           `json:"nested2,omitempty"`      // third segment of the path Rel.Nested.Nested2
+	Both       bool             `json:"both,omitempty"`         // Preload(Rel, Cond) AND Preload(clause.Associations, CondAll) in one query
+	CondAll    Cond             `json:"cond_all"`               // conditions / scope given with clause.Associations (Both)
+	AllUnsc    bool             `json:"all_unscoped,omitempty"` // the all-associations scope also calls Unscoped()
+	AllFirst   bool             `json:"all_first,omitempty"`    // order of the two Preload calls
+	Reload     *Reload          `json:"reload,omitempty"`
+	JoinNested string           `json:"join_nested,omitempty"` // joins mode: also Joins(Rel + "." + JoinNested), a nested relation join
+	DupPtr     bool             `json:"dup_ptr,omitempty"`     // assoc mode, pointer slice: the SAME parent pointer occurs twice in the owners slice
+	AllAssoc   bool             `json:"all_assoc,omitempty"`
+	Cond       Cond             `json:"cond"`
+	Cond2      Cond             `json:"cond2"`
+	Unscoped   bool             `json:"unscoped,omitempty"`
+	Shape      string           `json:"shape"` // struct | slice | ptrs
+	Dup        bool             `json:"dup,omitempty"`
+	Inner      bool             `json:"inner,omitempty"`  // joins mode: InnerJoins instead of Joins
+	Subset     []int64          `json:"subset,omitempty"` // parent uids selected (nil = all)
+	Tables     map[string][]Row `json:"tables"`           // P O M T G N J
 }
 
 // ---------------------------------------------------------------- key parts (Coq side encoding)
@@ -829,6 +831,9 @@ func (e *Env) run(in Input) []Obs {
 			} else {
 				tx = tx.Joins(rel.Name, jargs...)
 			}
+			if in.JoinNested != "" {
+				tx = tx.Joins(rel.Name + "." + in.JoinNested)
+			}
 			if in.Nested != "" {
 				tx = tx.Preload(nestedPath(in), condArgs(in.Cond2)...)
 			}
@@ -872,12 +877,23 @@ func (e *Env) run(in Input) []Obs {
 			adb = adb.Unscoped()
 		}
 		var aerr error
+		if in.DupPtr && in.Shape == "ptrs" && dest.Elem().Len() > 0 {
+			// a user-built owners slice holding the same record twice (same pointer)
+			dest.Elem().Set(reflect.Append(dest.Elem(), dest.Elem().Index(0)))
+			ps = parentObjs(dest, in.Shape)
+		}
 		if code == 0 {
 			aerr = adb.Model(dest.Interface()).Association(rel.Name).Find(res.Interface(), condArgs(cond1)...)
 		}
 		ids := []int64{}
 		for i := 0; i < res.Elem().Len(); i++ {
 			ids = append(ids, uidOf(res.Elem().Index(i)))
+		}
+		if code == 0 && aerr == nil && (cond1.Kind == "all" || cond1.Kind == "") {
+			// Count() reports the number of rows Find() returns
+			if cnt := adb.Model(dest.Interface()).Association(rel.Name).Count(); int(cnt) != len(ids) {
+				aerr = fmt.Errorf("Count() = %d but Find() returned %d rows", cnt, len(ids))
+			}
 		}
 		sort.Slice(ids, func(i, j int) bool { return ids[i] < ids[j] })
 		if rel.M2M && len(ps) > 1 { // a target linked to several owners is returned once per owner
@@ -976,6 +992,23 @@ func (e *Env) run(in Input) []Obs {
 			o2.children = e.dump(f, r2, nil, false)
 			o2.PKeys = printable(o2.Parents)
 			out = append(out, o2)
+		}
+		if in.Mode == "joins" && in.JoinNested != "" && rn == rel.Name {
+			// Joins(A).Joins(A.B): the nested join attaches B to the joined A objects
+			rj := rels[in.JoinNested]
+			oj := Obs{Rel: rn + "+" + rj.Name, Mode: "MJoins", Err: code, ErrText: etext,
+				hop: Hop{Single: rj.Single, Cond: Cond{Kind: "all"}, Unscoped: in.Unscoped, Poly: rj.Poly}, hop2: Hop{Cond: Cond{Kind: "all"}}}
+			for _, c := range lvl1 {
+				oj.Parents = append(oj.Parents, keyOfObj(c, rj.PF))
+				ids, _ := attached(c, rj.Name)
+				oj.Att = append(oj.Att, ids)
+			}
+			if oj.Att == nil {
+				oj.Att = [][]int64{}
+			}
+			oj.children = e.dump(f, rj, nil, false)
+			oj.PKeys = printable(oj.Parents)
+			out = append(out, oj)
 		}
 		if nested && in.Nested2 != "" {
 			// third segment: hop Nested2 runs on the rows loaded for the second segment
@@ -1314,6 +1347,19 @@ func genInput(r *lib.Rng, edge bool) Input {
 			in.Nested = lib.Pick(r, ns)
 			in.Cond2 = genCond()
 		}
+		// nested relation joins: Joins("Boss").Joins("Boss.Target")
+		var single []string
+		for _, n := range f.nestedOf(in.Rel) {
+			if rels[n].Single {
+				single = append(single, n)
+			}
+		}
+		if len(single) > 0 && r.Chance(1, 3) {
+			in.JoinNested = lib.Pick(r, single)
+		}
+	}
+	if in.Mode == "assoc" {
+		in.DupPtr = r.Chance(1, 4)
 	}
 	if in.Nested != "" {
 		// self-referential relations are walked repeatedly: Boss.Boss.X, Team.Team.Team, ...
@@ -1884,7 +1930,7 @@ func shapeOf(in Input) string {
 	fl := []byte(flags)
 	sort.Slice(fl, func(i, j int) bool { return fl[i] < fl[j] })
 	return fmt.Sprintf("%s.%s|%s|inner=%v|n=%s|all=%v|c=%s%s,%s%s|u=%v|%s|dup=%v|sub=%d|P%d,O%d,M%d,T%d,G%d,N%d,J%d|%s",
-		in.Fam, in.Rel, in.Mode, in.Inner, in.Nested+"."+in.Nested2+fmt.Sprint("|both=", in.Both, in.CondAll.Kind, in.AllUnsc, in.AllFirst, "|reload=", in.Reload != nil), in.AllAssoc, in.Cond.Kind, in.Cond.As, in.Cond2.Kind, in.Cond2.As, in.Unscoped,
+		in.Fam, in.Rel, in.Mode, in.Inner, in.Nested+"."+in.Nested2+fmt.Sprint("|both=", in.Both, in.CondAll.Kind, in.AllUnsc, in.AllFirst, "|reload=", in.Reload != nil, "|jn=", in.JoinNested, "|dp=", in.DupPtr), in.AllAssoc, in.Cond.Kind, in.Cond.As, in.Cond2.Kind, in.Cond2.As, in.Unscoped,
 		in.Shape, in.Dup, len(in.Subset), n("P"), n("O"), n("M"), n("T"), n("G"), n("N"), n("J"), string(fl))
 }
 
